@@ -41,6 +41,7 @@ _yield_cache = {}
 
 # module-level names that are process-global by construction but not per-render state
 _NOISE = {"__all__", "app_settings", "registry", "urlpatterns", "defaults", "register", "logger", "all_registries"}
+_MUTABLE_CALLS = {"deque", "dict", "list", "set", "defaultdict", "OrderedDict", "WeakValueDictionary", "WeakKeyDictionary", "LRUCache", "Counter"}
 _IMMUTABLE_CALLS = {"compile", "TypeVar", "getLogger", "NewType", "namedtuple", "frozenset", "Library", "cast", "ParamSpec", "partial", "Lock", "RLock", "local", "object", "Signal"}
 
 
@@ -76,6 +77,22 @@ def global_state_names(pkg):
             for node in ast.walk(tree):
                 if isinstance(node, ast.Global):
                     names.update(node.names)
+                elif isinstance(node, ast.ClassDef):
+                    # mutable objects assigned in a class body are shared by all instances (and threads) too
+                    for stmt in node.body:
+                        targets, val = [], None
+                        if isinstance(stmt, ast.Assign):
+                            targets, val = [t for t in stmt.targets if isinstance(t, ast.Name)], stmt.value
+                        elif isinstance(stmt, ast.AnnAssign) and isinstance(stmt.target, ast.Name) and stmt.value is not None:
+                            targets, val = [stmt.target], stmt.value
+                        if not targets:
+                            continue
+                        mutable = isinstance(val, (ast.List, ast.Dict, ast.Set, ast.ListComp, ast.DictComp, ast.SetComp))
+                        if isinstance(val, ast.Call):
+                            f = val.func
+                            mutable = (f.attr if isinstance(f, ast.Attribute) else getattr(f, "id", "")) in _MUTABLE_CALLS
+                        if mutable:
+                            names.update("." + t.id for t in targets if not t.id.isupper())
     return names - _NOISE
 
 
@@ -88,7 +105,14 @@ def yield_points(src_root):
     import re
 
     auto = global_state_names(pkg)
-    auto_re = re.compile(r"(?<![\w.])(?:%s)\b" % "|".join(sorted(map(re.escape, auto)))) if auto else None
+    plain = sorted(n for n in auto if not n.startswith("."))
+    attrs = sorted(n[1:] for n in auto if n.startswith("."))  # class-level objects are reached as `self.x` / `cls.x`
+    pats = []
+    if plain:
+        pats.append(r"(?<![\w.])(?:%s)\b" % "|".join(map(re.escape, plain)))
+    if attrs:
+        pats.append(r"\.(?:%s)\b" % "|".join(map(re.escape, attrs)))
+    auto_re = re.compile("|".join(pats)) if pats else None
     for dirpath, _dirs, files in os.walk(pkg):
         for fn in files:
             if not fn.endswith(".py"):
